@@ -2,4 +2,10 @@
 EXTENDS ACP, Json, CSV, IOUtils
 Export == CSVWrite("%1$s", <<ToJson(hist')>>, IOEnv.VERIF_OUT)
 ExportLeaves == (steps' = MaxSteps) => Export
+\* generation bias: start with private documents, patch the schema once early, then anything
+GenNext == /\ steps < MaxSteps
+           /\ IF steps < 2 THEN \E a \in Actors, d \in Docs, v \in 1..MaxVal : Create(a, d, v)
+              ELSE IF steps = 3 THEN Patch
+              ELSE Next
+GenSpec == Init /\ [][GenNext]_vars
 =============================================================================
